@@ -283,6 +283,14 @@ Record flinker : Type := mkLinker {
   lmodel : fmodel;                            (* the linker's own variables *)
   lsubs : list (cell * fmodel) }.             (* linker.submodels, in dict order *)
 
+(* BaseLinker.__init__ (since f5ef8bd): `if name in submodels: raise DuplicateNameError`, before anything else; otherwise the
+   linker exists with that name and those submodels.  (`in` on dict keys; labels here are compared structurally: the
+   generator does not mix 1 / 1.0 / True as keys) *)
+Definition linker_name_free (name : cell) (subs : list (cell * fmodel)) : bool :=
+  negb (existsb (fun km => cell_eqb name (fst km)) subs).
+Definition linker_construct (name : cell) (core : fmodel) (subs : list (cell * fmodel)) : tres flinker :=
+  if linker_name_free name subs then TOk (mkLinker name core subs) else TErr DuplicateNameError.
+
 Fixpoint dset {V} (k : cell) (v : V) (d : list (cell * V)) : list (cell * V) :=
   match d with
   | [] => [(k, v)]
@@ -481,12 +489,14 @@ Definition type_of_cell (c : cell) : tres ptype :=
 Definition convert_to_int_or_none (c : cell) : tres (option pidx) :=
   match c with
   | CNone => TOk None
-  | CFlt FNaN => TOk None
+  | CFlt FNaN => TOk None                       (* isinstance(field, float) and np.isnan(field): floats only *)
   | CFlt FPInf | CFlt FNInf => TErr OverflowError
   | CFlt f => match Z_of_f64 f with Some z => TOk (Some (IInt z)) | None => TUnmodelled end
-  | CInt z => if in_int64 z || in_uint64 z then TOk (Some (IInt z)) else TErr TypeError
+  | CInt z => TOk (Some (IInt z))               (* int(field): any Python int, also one an object column holds *)
   | CBool b => TOk (Some (IInt (if b then 1 else 0)))
-  | _ => TErr TypeError
+  | CStr s => if plain_text s then TErr ValueError else TUnmodelled       (* int('abc') *)
+  | CTup _ _ => TErr TypeError
+  | _ => TUnmodelled                            (* int() of a Period / Timestamp / Timedelta: not tabulated *)
   end.
 
 (* convert_to_str_or_none *)
